@@ -1,5 +1,6 @@
 /- C04 driver: condition S-expressions + environment -> spec verdict per rule.
    Line:  <id> [cext=<t>:<name>:<val>]* [mext=<t>:m_<alias>:<val>]* buf=<hex> [blocks=n1,n2,..] rule=<sexpr>*   (other tokens ignored)
+   sets: (set;i;j..) expanded indices, or as written (sset;x$a;w$a;t) / (rsset;xr;wr) — resolved by Cond.setDenotes
    rule sexpr: (rule;<name>;(strs;(s;off:len;..);..);<cond>)          separator `;`, no spaces
    Output: <id> rules=default:<name>=<0|1>,... model=default:<name>=<0|1|?>,...
    `rules` = the specification (Spec.Cond.eval); `model` = the compiled code run on the VM model
@@ -85,6 +86,31 @@ def parseSet : SX → Option (List Nat)
   | .list (.atom "set" :: xs) => parseNats xs
   | _ => none
 
+/-- a written set item: `x<identifier>` exact, `w<prefix>` wildcard, `t` = them -/
+def parseItem (a : String) : Option SetItem :=
+  if a == "t" then some .them
+  else if a.startsWith "x" then some (.exact (a.drop 1).toString)
+  else if a.startsWith "w" then some (.wild (a.drop 1).toString)
+  else none
+
+/-- `(sset;items..)` / `(rsset;items..)`: sets as WRITTEN; the specification (`Cond.setDenotes`) says which strings /
+    rules they denote, given the rule's string identifiers / the identifiers of the rules declared before it -/
+partial def resolveSets (names rnames : List String) : SX → Option SX
+  | .atom a => some (.atom a)
+  | .list (.atom "sset" :: xs) => do
+      let items ← xs.mapM fun x => match x with
+        | .atom a => parseItem a
+        | _ => none
+      pure (.list (.atom "set" :: (setDenotes names items).map fun i => .atom (toString i)))
+  | .list (.atom "rsset" :: xs) => do
+      let items ← xs.mapM fun x => match x with
+        | .atom a => parseItem a
+        | _ => none
+      pure (.list (.atom "set" :: (setDenotes rnames items).map fun i => .atom (toString i)))
+  | .list xs => do
+      let ys ← xs.mapM (resolveSets names rnames)
+      pure (.list ys)
+
 mutual
 partial def parseExpr : SX → Option Expr
   | .list [.atom "int", .atom v] => v.toInt?.map .int
@@ -163,11 +189,22 @@ def parseStrs : List SX → Option (List (List (Int × Int)))
   | .list (.atom "s" :: ms) :: t => do let m ← parseMatches ms; let r ← parseStrs t; pure (m :: r)
   | _ => none
 
-def parseRule (s : String) : Option (String × Rule) :=
+def parseNames : List SX → Option (List String)
+  | [] => some []
+  | .atom a :: t => (parseNames t).map (a :: ·)
+  | _ => none
+
+/-- `(rule;name;(strs..);cond)` or `(rule;name;(strs..);(names;$a;$ab..);cond)`; `rnames`: the rules declared before -/
+def parseRule (rnames : List String) (s : String) : Option (String × Rule) :=
   match parseSX (lexSX s) with
   | some (.list [.atom "rule", .atom name, .list (.atom "strs" :: strs), cond], []) => do
       let ss ← parseStrs strs
       let c ← parseExpr cond
+      pure (name, { strs := ss, cond := c })
+  | some (.list [.atom "rule", .atom name, .list (.atom "strs" :: strs), .list (.atom "names" :: ns), cond], []) => do
+      let ss ← parseStrs strs
+      let names ← parseNames ns
+      let c ← parseExpr (← resolveSets names rnames cond)
       pure (name, { strs := ss, cond := c })
   | _ => none
 
@@ -207,7 +244,7 @@ def parseCase (toks : List String) : Case :=
     else if t.startsWith "blocks=" then
       { c with sizes := some (((t.drop 7).toString.splitOn ",").filterMap String.toNat?) }
     else if t.startsWith "rule=" then
-      match parseRule (t.drop 5).toString with
+      match parseRule (c.rules.map (·.1)) (t.drop 5).toString with
       | some r => { c with rules := c.rules ++ [r] }
       | none => { c with bad := true }
     else c) {}
